@@ -303,6 +303,7 @@ def run(ck):
               "_start_timer is not called with the current event's duration and the entered "
               "state's timed event", ctx, s.ast)
 
+    _passed_through_and_stale(ck, prog, fsm)
     _derived_blocks(ck, prog)
 
     # ------------------------------------------------------------------ R04.9
@@ -328,6 +329,57 @@ def run(ck):
                 problems.append(f"timed event {ev!r} keeps the FSM in {state!r}")
         ck.ob(R9, q, not problems, f"timers {timers} agree with the transitions" if not problems
               else '; '.join(problems), None, f"{mod.path}:{ci.node.lineno}")
+
+
+def _passed_through_and_stale(ck, prog, fsm):
+    """R04.11 / R04.12"""
+    from sa.cfg import canon_fact, decompose
+    R11 = ck.rule('R04.11', "no timer for a state that is only passed through: in the transition loop "
+                  "the timer of the new state is started only after the pending-chained-event slot "
+                  "was found empty (a chained request of the entry action leaves the state at once; "
+                  "a timer started for it would never be cancelled)", 'M0', 1)
+    R12 = ck.rule('R04.12', "conditions, actions and calc_output of the library's FSM blocks decide on "
+                  "the state, never on the block's output: the output is updated only at the end "
+                  "of a transition chain, so a zero-length timed event is judged before the update",
+                  'M0', 4)
+    ctx = fsm.methods.get('_ctx_event')
+    g = ck.cfg(ctx.fid, 'M0')
+    enter = nodes_where(g, lambda n: any(call_name(c) == '_run_cb' and c.args and is_const(c.args[0], 'enter')
+                                         for c in node_calls(n)))
+    start = nodes_where(g, lambda n: any(call_name(c) == '_start_timer' for c in node_calls(n)))
+    ck.need(R11, enter and start, "_ctx_event: entry action / _start_timer call not recognised")
+    want = [canon_fact(ast.parse(t, mode='eval').body, pol) for t, pol in
+            (('self._next_event', False), ('self._next_event is None', True),
+             ('self._next_event is not None', False))]
+    empty = [n for n in g.nodes if n.kind == 'branch' and any(
+        canon_fact(e, p_) in want for e, p_ in decompose(n.test.ast, n.polarity))]
+    wit = None
+    for e in enter:
+        for s_ in start:
+            wit = wit or g.path_avoiding(e, [s_], avoid=empty, start_successors_only=True)
+    ck.ob(R11, f"{ctx.fid} :: timer only for a state that is stayed in", wit is None and bool(empty),
+          "between the entry action and _start_timer the chained-event slot is tested and found "
+          "empty on every path" if wit is None and empty else
+          "the timer of the new state can be started although the entry action has already "
+          "requested a chained transition: the state is left at once and its timer stays pending "
+          "(a stale timed event fires later; two timers for one FSM)", ctx, start[0].ast,
+          witness=path_witness(g, wit))
+    n = 0
+    for ci in prog.subclasses(fsm, strict=True):
+        if ci.module.name == 'demo' or '/' in ci.module.name:
+            continue
+        for name, fi in sorted(ci.methods.items()):
+            if not (name.startswith(('cond_', 'enter_', 'exit_')) or name == 'calc_output'):
+                continue
+            n += 1
+            bad = [x for x in own_nodes(fi.node) if isinstance(x, ast.Attribute) and
+                   isinstance(x.ctx, ast.Load) and x.attr in ('_output', 'output') and norm(x.value) == 'self']
+            ck.ob(R12, fi.fid, not bad,
+                  "decides on the state / own data, not on the (possibly stale) output" if not bad else
+                  f"`{norm(bad[0])}` is read in an FSM callback: during a transition chain (e.g. a "
+                  f"zero-length timed event) the output still shows the previous state", fi,
+                  bad[0] if bad else fi.node)
+    ck.need(R12, n >= 4, f"only {n} FSM callbacks of library blocks found")
 
 
 def _derived_blocks(ck, prog):
